@@ -67,11 +67,11 @@ class Check:
                 self.inconclusive.append(i)
             self.notes.extend(r.diag[:5])
 
-    def run_part(self, harness, flavour, args, cases, nshards=16, extra=(), env=None, wall=1800, nsamples=2):
+    def run_part(self, harness, flavour, args, cases, nshards=16, extra=(), env=None, wall=1800, nsamples=2, seed=None):
         """Build + run one harness part over nshards processes; fold results, stats (into self.tot) and samples."""
         from . import run as R
         exe = build.harness(harness, flavour, extra)
-        res, dt = R.run_shards(exe, args, nshards, cases, self.seed, env=env, wall=wall)
+        res, dt = R.run_shards(exe, args, nshards, cases, self.seed if seed is None else seed, env=env, wall=wall)
         s = R.merge_stats(res)
         with self._lock:
             self.add_results(res, harness, flavour)
@@ -140,6 +140,10 @@ class Check:
                 ' (regression of fixed finding %s)' % reg.get('id') if reg is not None else '', (v['text'] or '')[:300]))
         for kkey, (kf, n) in sorted(known_hit.items()):
             print('KNOWN-FINDING: property=%s %s [%s, %d firings] %s' % (self.prop, kf['key'], kf.get('id', ''), n, kf.get('what', '')))
+        for k in self.known:
+            # a listed finding the workload of this run did not reach is still announced (with what was observed: nothing)
+            if k.get('status') == 'open' and k.get('property') == self.prop and k['key'] not in known_hit:
+                print('KNOWN-FINDING: property=%s %s [%s, not observed in this run] %s' % (self.prop, k['key'], k.get('id', ''), k.get('what', '')))
         cov['known_finding_firings'] = {k: n for k, (kf, n) in known_hit.items()}
         ev = dict(property_id=self.prop, tier=self.tier, seed=self.seed, level=level, coverage=cov,
                   assumptions=self.assumptions, wall_s=round(wall, 2), violations=nviol)
